@@ -544,7 +544,7 @@ def _column(draw, name, nrows, cspec):
     want = [n for n in _declared_names(cspec) if n in SCALAR_TYPES]
     r = draw(st.integers(0, 9))
     cell_kinds = SCALAR_TYPES
-    if want and r < 6:
+    if want and r < 5:
         kind = draw(st.sampled_from(want))
     elif want and r < 8:
         kind = "obj"  # mixed column: declared types, plus (below) one cell of another type after the first row
